@@ -1264,7 +1264,9 @@ class Interp:
         if isinstance(v, FuncRef):
             return v.bind(obj)
         if isinstance(v, PropertyV):
-            return self.call(v.fget.bind(obj), [])
+            if isinstance(v.fget, FuncRef):
+                return self.call(v.fget.bind(obj), [])
+            return self.call(v.fget, [obj])     # property(callable)
         if isinstance(v, StaticV):
             return v.func
         if isinstance(v, ClassMethodV):
